@@ -416,7 +416,7 @@ def rule_reserved(prog, rep):
         for w in words:
             cmps = []
             for c in f.live_calls():
-                if not re.search(r"PartialEq.*::eq$", c.name) or len(c.args) != 2:
+                if not re.search(r"PartialEq.*::(eq|ne)$", c.name) or len(c.args) != 2:
                     continue
                 syms = [f.sym(a) for a in c.args]
                 if any(re.search(r'const:&?"%s"' % re.escape(w), x) for x in syms):
@@ -427,8 +427,9 @@ def rule_reserved(prog, rep):
                 if br is None:
                     ok = False
                     continue
-                t_true, _t_false, _sw = br
-                if not must_pass_cp(f, [t_true], f.return_blocks(), errs)[0]:
+                t_true, t_false, _sw = br
+                t_equal = t_false if c.name.endswith("::ne") else t_true
+                if not must_pass_cp(f, [t_equal], f.return_blocks(), errs)[0]:
                     ok = False
             rep.obligation(ok)
             if ok:
